@@ -150,6 +150,22 @@ def configured(ck):
             if not ok:
                 fails.append({"obligation": "bounded.configured.power", "clause": "F(10^log_e_nu) == u, log_e_nu inside the bounds, norm x weight sum == 1 for an index given as %s" % type(idx).__name__,
                               "input": {"index": repr(idx), "lower": lo, "upper": hi, "u": u.tolist()}, "observed": {"log_e_nu": L.tolist(), "F": np.asarray(F, float).tolist(), "norm*sum": float(norm) * float(wsum)}})
+    # the spectrum is read from the configuration at every call: a configuration whose spectrum is replaced after the sampler was built
+    cfg = NssConfig()
+    sp_ = Spectra(cfg)
+    cfg.simulation.spectrum = Simulation.PowerSpectrum(index=2.0, lower_bound=7.0, upper_bound=9.0)
+    n += 1
+    try:
+        with harness.patched_rng([u.copy()]), np.errstate(all="ignore"):
+            L, norm, wsum = sp_(len(u))
+        L = np.asarray(L, dtype=float)
+        a, b = 10.0**7.0, 10.0**9.0
+        F = ((10.0**L) ** (-1.0) - a ** (-1.0)) / (b ** (-1.0) - a ** (-1.0))
+        if not (L.shape == u.shape and np.allclose(F, u, rtol=0, atol=1e-9)):
+            fails.append({"obligation": "bounded.configured.history", "clause": "the sampler follows the spectrum of the configuration as it is at the time of the call (replaced after the sampler was built)",
+                          "input": {"built with": "default mono spectrum", "replaced by": "power law index 2 on [7, 9]", "u": u.tolist()}, "observed": {"log_e_nu": L.tolist()}})
+    except Exception as ex:
+        fails.append({"obligation": "bounded.configured.history", "clause": "the sampler follows a replaced spectrum", "input": {"replaced by": "power law index 2 on [7, 9]"}, "observed": "raised %r" % ex})
     for val in (8.3, 9.7, 6.1, 11.999999, 8.0, 12.0, 1e-3 + 7):
         for nev in (1, 3):
             n += 1
